@@ -48,14 +48,18 @@ def tlc_jobs(ctx, quick):
             exp('d0-' + sp, sp, 0, 'all')
             exp('d1-' + sp, sp, 1, ROT[sp], xs='quick' if ROT[sp] in ('smooth', 'kl', 'core') else 'tiny')
         else:
+            for g in LAWGROUPS:
+                exp('d0-%s-%s' % (sp, g), sp, 0, g, xs='full')           # every leaf: 64 points x 5 steps
             for g in LAWGROUPS + (['core'] if sp == 'pspace1' else []):
-                exp('d1-%s-%s' % (sp, g), sp, 1, g)
+                exp('d1-%s-%s' % (sp, g), sp, 1, g, xs='quick')          # every leaf x every rule: 16 points x 3 steps
     # sanity laws of the reference
+    # (quick: every leaf on three spaces; thorough: every leaf on every space, every leaf x rule on two spaces)
     lawspaces = ['rn2', 'discr2', 'power1'] if quick else fu.SPACES_2D
     for sp in lawspaces:
-        for g in (['norms', 'all'] if False else LAWGROUPS):
+        for g in LAWGROUPS:
+            deep = (not quick) and sp in ('rnw2', 'power1')
             jobs.append(('laws-%s-%s' % (sp, g), M, 'MC_FuncMachine_lawsProx.cfg',
-                         fu.fm_env(sp, 0 if quick else 1, g, 'prox', xset='quick'), 1))
+                         fu.fm_env(sp, 1 if deep else 0, g, 'prox', xset='quick'), 1))
     # depth 2 on a core of leaves ("derived rules preserve optimality")
     if quick:
         exp('d2-rn2', 'rn2', 2, 'one', deep='one', xs='tiny')
@@ -339,7 +343,7 @@ def opaque_program(arg):
                                    'err': info['err']}}
             res['counts'].append(([name, option, sig, detail['x']], True))
             for clause, extra in judge(B, ev, info, None, sp, B.f, 's'):
-                sigd = {'leaf': name, 'ops': name, 'option': option, 'space': 'opaque', 'clause': clause}
+                sigd = {'leaf': name, 'ops': name, 'option': option, 'space': 'opaque', 'clause': clause, 'sigma': 'scalar'}
                 sigd.update(extra)
                 res['viol'].append((sigd, detail))
             if not info['err']:
@@ -528,6 +532,7 @@ def run(ctx):
     ctx.traces += sum(1 for e in events if e.get('tag') == 'driver')
     ctx.extra['trace_events_validated_by_tlc'] = len(events)
     ctx.extra['trace_events_rejected_by_tlc'] = len(fails)
+    fu.design_drift(ctx, design, ctx.extra.get('_ops', []))
     fu.uncovered_report(ctx, classes)
     ctx.exhaustive = True      # the exported program x sigma x x set is the complete product of the bounded machine
 
